@@ -7,7 +7,9 @@
     src/String.c   String_Cmp  = strcmp          → `bytesCmp`
     src/Type.c     Type_Cmp    = strcmp of names → `bytesCmp`
     src/Array.c List.c Tuple.c   X_Cmp           → `lexCmp elemCmp` (parallel iteration; first difference decides by
-                                                   sign; the one that ends first is smaller)
+                                                   sign; the one that ends first is smaller) on VALUES, and
+                                                   `objCmpF D` on OBJECTS (Tuple slots are references: sharing, identity
+                                                   walks; `D` = how each loop advances along self, read off the source)
     src/Tree.c     Tree_Cmp                      → `pairsCmp keyCmp valCmp` (per entry: key, then value; entries in the
                                                    Tree's iteration order, which is DESCENDING in the keys: `sortedInsert`)
 
@@ -323,6 +325,152 @@ end
 /-- may `cmp a b` be run at top level? (two plain structs may always be compared: different types raise TypeError) -/
 def runnable (a b : Val) : Bool :=
   a.valid && b.valid && (comparable a b || (a.ctype == 4 && b.ctype == 4))
+
+/-! ### objects: identity, sharing, and how each comparison loop moves along its operands
+
+  A Tuple holds REFERENCES: nothing stops one object being referenced from several slots (`tuple(one, one, two)`), from
+  both operands, or an operand being compared with itself.  Array, List and Tree hold COPIES of what is put into them, so
+  inside those no two slots ever share an object.  The comparison loops of src/Array.c, List.c, Tuple.c advance along
+  `self` either by slot index (`i++; item0 = t->items[i];`) or through the type's iterator
+  (`item0 = X_Iter_Next(self, item0);`), and along `obj` always through `iter_next(obj, item1)`.  What the iterator does:
+
+    Array_Iter_Next   the next address (`(char*)curr + Array_Step(a)`)           — by position
+    List_Iter_Next    the node's next link                                         — by position
+    Tuple_Iter_Next   searches `items[]` for the first slot that IS `curr` and returns the slot after it — by IDENTITY:
+                      with one object in two slots the walk returns to the slot after the FIRST occurrence (defect F13)
+
+  Which of the two each X_Cmp uses for `self` is read off the source on every run (`CelloGen.CmpLoops.sourceDiscipline`);
+  the model below takes it as a parameter, so "Tuple_Cmp walks self by identity search" is a different, executable model. -/
+
+open CelloGen.Cmp (Walk Discipline)
+
+/-- an object as far as `cmp` can see it: a Tuple with its slots (object identity, object), or anything else — which has
+    no shared parts (`.val (.seq .tuple xs)` is a Tuple whose slots are pairwise distinct objects) -/
+inductive Obj where
+  | val (v : Val)
+  | tuple (slots : List (Nat × Obj))
+
+abbrev Slot := Nat × Obj
+
+mutual
+/-- the value of an object: identities erased -/
+def Obj.content : Obj → Val
+  | .val v => v
+  | .tuple ss => .seq .tuple (contents ss)
+def contents : List (Nat × Obj) → List Val
+  | [] => []
+  | (_, o) :: rest => o.content :: contents rest
+end
+
+/-- the elements of an Array / List (copies: pairwise distinct objects), numbered from `n` -/
+def enumSlots (n : Nat) : List Val → List Slot
+  | [] => []
+  | x :: xs => (n, .val x) :: enumSlots (n + 1) xs
+
+/-- the sequence type of an object and its slots -/
+def Obj.seqView : Obj → Option (SeqKind × List Slot)
+  | .tuple ss => some (.tuple, ss)
+  | .val (.seq k xs) => some (k, enumSlots 0 xs)
+  | .val _ => none
+
+/-- what is left of `items[]` after the first slot holding the object `id` (nothing when it is not there) -/
+def afterFirst (id : Nat) : List Slot → List Slot
+  | [] => []
+  | s :: rest => if s.1 = id then rest else afterFirst id rest
+
+/-- `X_Iter_Next(self, curr)`: a cursor is the list of slots from the current one on; `all` is the whole container -/
+def iterNext (k : SeqKind) (all : List Slot) (cur : Slot) (rest : List Slot) : List Slot :=
+  match k with
+  | .array => rest                      -- Array_Iter_Next: the next address
+  | .list => rest                       -- List_Iter_Next: the node's next link
+  | .tuple => afterFirst cur.1 all      -- Tuple_Iter_Next: found again by pointer identity
+
+/-- one step along an operand -/
+def advance (w : Walk) (k : SeqKind) (all : List Slot) (cur : Slot) (rest : List Slot) : List Slot :=
+  match w with
+  | .byIndex => rest                    -- `i++; item0 = t->items[i];`
+  | .byIterator => iterNext k all cur rest
+
+def selfWalk (D : Discipline) : SeqKind → Walk
+  | .array => D.arraySelf
+  | .list => D.listSelf
+  | .tuple => D.tupleSelf
+
+mutual
+/-- `cmp(self, obj)` on objects under the discipline `D`, with fuel: `none` = the loops did not come to an end within `fuel`
+    steps (an identity walk over a repeated object never does).  Pairs that are not two sequences have no shared parts
+    that matter and go to `valCmp`. -/
+def objCmpF (D : Discipline) (ops : FloatOps UInt64) : Nat → Obj → Obj → Option Int
+  | 0, _, _ => none
+  | f + 1, a, b =>
+    match a.seqView, b.seqView with
+    | some (k0, s0), some (k1, s1) => loopF D ops k0 k1 s0 s1 f s0 s1
+    | _, _ => some (valCmp ops a.content b.content)
+/-- the `while (true)` loop of Array_Cmp / List_Cmp / Tuple_Cmp: `cur0`, `cur1` are the two cursors -/
+def loopF (D : Discipline) (ops : FloatOps UInt64) (k0 k1 : SeqKind) (all0 all1 : List Slot) :
+    Nat → List Slot → List Slot → Option Int
+  | 0, _, _ => none
+  | _ + 1, [], [] => some 0                              -- item0 is Terminal and item1 is Terminal
+  | _ + 1, [], _ :: _ => some (-1)                       -- item0 is Terminal
+  | _ + 1, _ :: _, [] => some 1                          -- item1 is Terminal
+  | f + 1, s0 :: r0, s1 :: r1 =>
+    match objCmpF D ops f s0.2 s1.2 with
+    | none => none
+    | some c =>
+      if c < 0 then some (-1) else if c > 0 then some 1
+      else loopF D ops k0 k1 all0 all1 f (advance (selfWalk D k0) k0 all0 s0 r0) (advance .byIterator k1 all1 s1 r1)
+end
+
+/-- the discipline that seeded change c09_c introduces: Tuple_Cmp walks `self` through Tuple_Iter_Next -/
+def identityWalk (D : Discipline) : Discipline := { D with tupleSelf := .byIterator }
+
+/-! sizes (fuel that suffices when `self` is walked by position) and "no object twice in one Tuple" -/
+
+mutual
+def Val.size : Val → Nat
+  | .seq _ xs => 2 + Val.sizeList xs
+  | _ => 1
+def Val.sizeList : List Val → Nat
+  | [] => 0
+  | x :: xs => x.size + 1 + Val.sizeList xs
+end
+
+mutual
+def Obj.size : Obj → Nat
+  | .val v => v.size
+  | .tuple ss => 2 + slotsSize ss
+def slotsSize : List (Nat × Obj) → Nat
+  | [] => 0
+  | (_, o) :: rest => o.size + 1 + slotsSize rest
+end
+
+def hasId (id : Nat) : List Slot → Bool
+  | [] => false
+  | s :: rest => s.1 == id || hasId id rest
+
+/-- no object is referenced from two slots -/
+def idsNodup : List Slot → Bool
+  | [] => true
+  | s :: rest => !hasId s.1 rest && idsNodup rest
+
+mutual
+/-- no Tuple inside the object, at any depth, references one object from two slots -/
+def Obj.nodup : Obj → Bool
+  | .val _ => true
+  | .tuple ss => idsNodup ss && slotsNodup ss
+def slotsNodup : List (Nat × Obj) → Bool
+  | [] => true
+  | (_, o) :: rest => o.nodup && slotsNodup rest
+end
+
+/-- fuel the driver gives a comparison: enough whenever the loops end at all (a walk that ends visits no slot twice) -/
+def fuelFor (a b : Obj) : Nat := a.size + b.size + 8
+
+/-- `cmp` of src/Cmp.c on objects -/
+def cmpObj (D : Discipline) (ops : FloatOps UInt64) (a b : Obj) : Option Res :=
+  match a, b with
+  | .val (.plain ta xs), .val (.plain tb ys) => some (cmpTop ops (.plain ta xs) (.plain tb ys))
+  | a, b => (objCmpF D ops (fuelFor a b) a b).map .ok
 
 /-! ### Tree / Table keyed on boundary values, and sort -/
 
